@@ -96,6 +96,8 @@ class StepExec:
         self.loop_invs: Dict[str, Callable] = {}
         self.ret_stack: List[List[State]] = []
         self.depth = 0
+        self.opaque: set = set()
+        self.opaque_why: Dict[str, str] = {}
         self.param_names: set = set()
         self.inner: Dict[Tuple[str, str], Any] = {}      # (container, loop variable) -> symbol for len(container[variable]) in the current iteration
         self.ret_abs: Dict[int, Any] = {}                # id(call node) -> size abstraction of what an analysed callee returns
@@ -316,7 +318,28 @@ class StepExec:
         if self.silent:
             return
         self.n_obl += 1
-        self.sess.check(kind, self.hyps + self.scoped + [st.guard], goal, line, label=label + self.tag)
+        ob = self.sess.check(kind, self.hyps + self.scoped + [st.guard], goal, line, label=label + self.tag)
+        if ob.status != "discharged":
+            dep = self.opaque_in(goal) or self.opaque_in(st.guard)
+            if dep:
+                # not provable, and the formula involves a value the analysis does not follow: nothing is decided about it
+                self.sess.obligations.remove(ob)
+                self.n_obl -= 1
+                self.taints.append(f"the obligation `{label[:80]}` depends on `{dep.split('@')[0]} = {self.opaque_why.get(dep, '?')}`, a value the analysis does not follow")
+
+    def opaque_in(self, e) -> Optional[str]:
+        if not self.opaque:
+            return None
+        seen, todo = set(), [e]
+        while todo:
+            x = todo.pop()
+            if x.get_id() in seen:
+                continue
+            seen.add(x.get_id())
+            if z3.is_const(x) and x.decl().kind() == z3.Z3_OP_UNINTERPRETED and str(x) in self.opaque:
+                return str(x)
+            todo.extend(x.children())
+        return None
 
     def exits(self, st: State, line: int, how: str):
         for c in list(self.ctxs.values()):
@@ -580,6 +603,74 @@ class StepExec:
         self.note(f"line {line}: {callee}() has no declared step contract; inferred from its body: steps <= {str(z3.simplify(delta))[:160]}")
         return self.advance(st, cname, delta, line, cond)
 
+    def infer_number(self, call: ast.Call, st: State):
+        """x = helper(args) where helper is a function of the library that computes a number from numbers and lengths (step
+        arithmetic moved into a helper): the returned number as an expression of the arguments, from the helper's body"""
+        if self.depth >= 3:
+            return None
+        try:
+            fn = self.find_callee(call.func.id)
+        except LookupError:
+            return None
+        if fn is None or any(isinstance(n, (ast.For, ast.While, ast.With, ast.Try)) for n in ast.walk(fn)):
+            return None                    # straight-line / branching helpers only
+        a = fn.args
+        params = [x.arg for x in a.posonlyargs + a.args]
+        bound_args = self.bind(call, params, st)
+        sub = StepExec(self.sess, self.module, fn, self.contracts)
+        sub.fresh, sub.requires, sub.externals, sub.find_callee = self.fresh, {}, {}, self.find_callee
+        sub.depth = self.depth + 1
+        sub.silent = 1
+        try:
+            sub.run_function({})
+        except Unsupported:
+            return None
+        vals = []
+        for e, rv in zip(sub.returns, sub.return_values):
+            if z3.is_false(z3.simplify(e.guard)):
+                continue
+            if rv is None:
+                return None
+            v = sub.num(rv, e)
+            if v is None or sub.opaque_in(v):
+                return None
+            vals.append((e.guard, v))
+        if not vals:
+            return None
+        out = vals[-1][1]
+        for g, v in reversed(vals[:-1]):
+            out = z3.If(g, v, out)
+        mapping = []
+        defaults = {}
+        for x, d in zip(reversed(a.posonlyargs + a.args), reversed(a.defaults)):
+            defaults[x.arg] = d
+        for p_ in params + [x.arg for x in a.kwonlyargs]:
+            node = bound_args.get(p_, defaults.get(p_))
+            if node is None:
+                continue
+            numv = node.num if isinstance(node, Val) else self.num(node, st)
+            lenv = node.length if isinstance(node, Val) else self.length(node, st)
+            if numv is not None:
+                mapping.append((z3.Real(f"{p_}@0"), numv))
+            if lenv is not None:
+                mapping.append((z3.Real(f"len:{p_}|{p_}@0"), lenv))
+        # only numbers computed from the parameters (their values and lengths) by numeric tests: nothing else is a "count"
+        allowed = {f"{p_}@0" for p_ in params + [x.arg for x in a.kwonlyargs]} | {f"len:{p_}|{p_}@0" for p_ in params + [x.arg for x in a.kwonlyargs]}
+
+        def free(x, acc):
+            if z3.is_const(x) and x.decl().kind() == z3.Z3_OP_UNINTERPRETED:
+                acc.add(str(x))
+            for c in x.children():
+                free(c, acc)
+            return acc
+        if any(self.has_atoms(v, -1) for _, v in vals) or not free(out, set()) <= allowed or not free(out, set()):
+            return None
+        out = z3.substitute(out, *mapping) if mapping else out
+        for h in sub.hyps:
+            self.hyps.append(z3.substitute(h, *mapping) if mapping else h)
+        self.note(f"{call.func.id}() returns a number computed from its arguments; taken from its body: {str(z3.simplify(out))[:120]}")
+        return out
+
     def upper_over(self, e, atom_names: List[str]):
         """an upper bound of e that does not depend on the named (callee-local) atoms"""
         if not atom_names:
@@ -736,6 +827,12 @@ class StepExec:
             st.vars[name], st.kind[name] = z3.RealVal(0), "len"
             st.vars[name + "#tot"], st.kind[name + "#tot"] = z3.RealVal(0), "len"
             return st
+        if isinstance(value, ast.Call) and isinstance(value.func, ast.Name) and id(value) not in self.ret_abs and not any(self.carried(a, st) for a in list(value.args) + [k.value for k in value.keywords]):
+            got = self.infer_number(value, st)
+            if got is not None:
+                self.bump(st, name)
+                st.vars[name], st.kind[name] = got, "num"
+                return st
         if isinstance(value, ast.Call) and id(value) in self.ret_abs and self.ret_abs[id(value)] is not None and not isinstance(self.ret_abs[id(value)], list):
             self.bind_ret(st, name, self.ret_abs[id(value)])
             return st
@@ -772,6 +869,10 @@ class StepExec:
         self.bump(st, name)
         st.present.pop(name, None)
         self.src_of.pop(name, None)
+        if val is None and not isinstance(value, (ast.Constant, ast.Dict, ast.Lambda)):
+            # not a value the analysis follows: if a total or a step count later depends on it, the question is left undecided
+            self.opaque.add(f"{name}@{st.ver.get(name, 0)}")
+            self.opaque_why[f"{name}@{st.ver.get(name, 0)}"] = ast.unparse(value)[:60]
         if val is not None:
             st.vars[name], st.kind[name] = val, kind
             if kind == "gen" and is_call:
